@@ -13,7 +13,7 @@ def build_replay(groups=GROUPS, sanitize=None):
 
 
 def run_model(ev, part, cfg, binaries, nv, maxdim, workers=1, simulate=None, depth=None, shards=4, tlc_timeout=1100,
-              max_edges_per_state=None, gap_edges_per_state=None):
+              max_edges_per_state=None, gap_edges_per_state=None, extra_env=None):
     """TLC on MC_SimplexTree with `cfg`, then replay of the whole emitted graph.
     Returns (graph, summaries, deviations, crashes)."""
     r = vf.tlc("MC_SimplexTree", cfg, workers=workers, simulate=simulate, depth=depth, timeout=tlc_timeout,
@@ -25,6 +25,8 @@ def run_model(ev, part, cfg, binaries, nv, maxdim, workers=1, simulate=None, dep
     work = os.path.join(vf.BUILD, "work", "%s_%s_%d" % (ev.prop, part, os.getpid()))
     rnd = random.Random(vf.seed())
     env = {"VF_NV": str(nv), "VF_MAXDIM": str(maxdim), "VF_LABELS": "id"}
+    if extra_env:
+        env.update(extra_env)
     summ, devs, crashes, nb = vf.replay(g, binaries, work, env=env, shards=shards,
                                         max_edges_per_state=max_edges_per_state, rnd=rnd)
     # second cover for the label map with gaps / negative labels: insert_graph takes boost vertex descriptors
